@@ -15,7 +15,7 @@ patches=("$@")
 [ ${#patches[@]} -eq 0 ] && patches=(mutants/*.patch seeded/*/patch.diff)
 # scratch copies
 rsync -a --exclude target --exclude .git /repo/ "$SCRATCH/repo/"
-rsync -a --exclude target "$VERIF/sim/" "$SCRATCH/sim/"
+rsync -a --exclude target "${SIM_SRC:-$VERIF/sim}/" "$SCRATCH/sim/"
 mkdir -p "$SCRATCH/fixtures" && rsync -a "$VERIF/fixtures/" "$SCRATCH/fixtures/"
 cp "$VERIF/known_findings.json" "$SCRATCH/" 2>/dev/null
 cp "$VERIF/properties.jsonl" "$SCRATCH/"
